@@ -117,6 +117,7 @@ func VerifC13_FieldCheckerRestrictsWrites() {
 	}
 	oldT, newT := time.Unix(100, 0), time.Unix(200, 0)
 	oldSp, newSp := "o", "n"
+	spNull, tNull := verifrt.Bool("new.sp.null"), verifrt.Bool("new.t.null")
 	db := verifrt.OpenDB()
 	err := db.Update(func(tx *bbolt.Tx) error {
 		b := GetOrCreatePath(tx, "root", "e")
@@ -132,7 +133,16 @@ func VerifC13_FieldCheckerRestrictsWrites() {
 		b.SetString("s", nw.s, checker).SetInt64("i", nw.i, checker).SetBool("b", nw.b, checker).SetFloat64("f", nw.f, checker)
 		b.SetStringList("l", nw.l, checker).SetInt32("i3", nw.i3, checker)
 		b.PutMap("m", map[string]interface{}{"k": "new"}, checker, true)
-		b.SetStringP("sp", &newSp, checker).SetTimeP("t", &newT, checker)
+		// the new optional values may be null: writing null is a write too
+		var nsp *string
+		var ntp *time.Time
+		if !spNull {
+			nsp = &newSp
+		}
+		if !tNull {
+			ntp = &newT
+		}
+		b.SetStringP("sp", nsp, checker).SetTimeP("t", ntp, checker)
 		return b.GetError()
 	})
 	verifrt.Assert(err == nil, "C13 restricted write succeeds")
@@ -171,13 +181,21 @@ func VerifC13_FieldCheckerRestrictsWrites() {
 		if pick(7) {
 			wantSp = newSp
 		}
-		verifrt.Assert(gsp != nil && *gsp == wantSp, "C13 optional string written iff selected")
+		if pick(7) && spNull {
+			verifrt.Assert(gsp == nil, "C13 optional string set to null iff selected")
+		} else {
+			verifrt.Assert(gsp != nil && *gsp == wantSp, "C13 optional string written iff selected")
+		}
 		gt := b.GetTime("t")
 		wantT := oldT
 		if pick(8) {
 			wantT = newT
 		}
-		verifrt.Assert(gt != nil && gt.Equal(wantT), "C13 time field written iff selected")
+		if pick(8) && tNull {
+			verifrt.Assert(gt == nil, "C13 optional time set to null iff selected")
+		} else {
+			verifrt.Assert(gt != nil && gt.Equal(wantT), "C13 time field written iff selected")
+		}
 		return nil
 	})
 	_ = db.Close()
